@@ -590,12 +590,14 @@ func (u *Rib) Serialize() ([]byte, error) {
 }
 
 func NewRib(seq uint32, family bgp.Family, prefix bgp.NLRI, entries []*RibEntry) *Rib {
+	// a RIB record may have an empty entry list (entry count 0)
+	isAddPath := len(entries) > 0 && entries[0].isAddPath
 	return &Rib{
 		SequenceNumber: seq,
 		Family:         family,
 		Prefix:         prefix,
 		Entries:        entries,
-		isAddPath:      entries[0].isAddPath,
+		isAddPath:      isAddPath,
 	}
 }
 
